@@ -103,6 +103,20 @@ func vfH_C19_primitives() {
 			}
 		}
 		vfAssert(held == int(n), "C19: Semaphore(n) / MaxConcurrentFlow(n) admitted fewer than n although free")
+		// several permits given back at once (Semaphore.ReleaseN): exactly that many become free
+		if k := vfRange("releaseN", 0, 2); k > 0 && k <= held {
+			s2 := db.Semaphore(key, 0, 10, n)
+			got, rerr := s2.ReleaseN(k)
+			vfAssert(rerr == nil && got == k, "C19: Semaphore.ReleaseN did not report the permits it was asked to give back")
+			held -= k
+			for i := 0; i < 4; i++ {
+				if acquire() {
+					held++
+				}
+				vfAssert(held <= int(n), "C19: after Semaphore.ReleaseN(k) more than n were admitted at a time")
+			}
+			vfAssert(held == int(n), "C19: after Semaphore.ReleaseN(k) fewer than n are admitted although free")
+		}
 	case 4: // RWLock: one writer or any number of readers; plain calls or the ...WithData variants
 		rw1, rw2 := db.RWLock(key, 0, 10), db.RWLock(key, 0, 10)
 		wd := vfChoice("withData", 2) == 1
